@@ -436,7 +436,14 @@ func (g *Gen) collect(d int, valVar string) Clause {
 	case 4: // COLLECT g = .. INTO x [= proj]
 		x := g.freshName()
 		c.Tail = Tail{K: "into", Name: x}
-		if g.pick(2) == 0 {
+		valVisible := false
+		for _, v := range g.visible() {
+			if v == valVar {
+				valVisible = true
+			}
+		}
+		// the default projection { v: v } needs the loop variable to be visible
+		if !valVisible || g.pick(2) == 0 {
 			g.inSort++
 			c.Tail.Proj = g.sortKey(d)
 			g.inSort--
